@@ -4,7 +4,7 @@
 # (a) demo passes without the patch, (b) demo fails with it, (c) the crate's suite passes with it.
 D="$1"; CRATE="$2"; NAME="$3"
 export CARGO_TARGET_DIR=/tmp/mut/target_confirm CARGO_PROFILE_DEV_DEBUG=0 CARGO_PROFILE_TEST_DEBUG=0 CARGO_NET_OFFLINE=true
-W=/tmp/mut/wt
+W=/tmp/mut/wt_confirm
 git -C $W checkout -q --detach "$(git -C /repo rev-parse HEAD)"; git -C $W checkout -q -- .; git -C $W clean -fdq
 cd $W
 if [ -f "$D/demo.diff" ]; then
